@@ -45,6 +45,7 @@ ASSUMPTIONS = [
     "conformance is judged, not equivalence",
 ]
 REQUIRED_MONITORS = ["conformance:layout", "conformance:ranges", "equivalence:state", "equivalence:photon-statistics",
+                     "source-untouched", "recompile-same",
                      "rejections", "tdm:conformance", "tdm:equivalence", "tdm1:conformance", "tdm1:unchanged"]
 MAX_SKIP_FRACTION = 0.05
 
@@ -243,7 +244,8 @@ def gen_x_case(rng):
         kind = str(rng.choice(["template", "template-manual", "template-manual", "template-broken", "unitary"]))
     if kind == "cov" and compiler != "Xcov":
         kind = "unitary"
-    case = {"family": "x", "N": N, "shape": shape, "compiler": compiler, "kind": kind}
+    case = {"family": "x", "N": N, "shape": shape, "compiler": compiler, "kind": kind, "share": bool(rng.random() < 0.3)}
+    common_sq = valid_sq(nonzero=True) if case["share"] else None
 
     def squeezers(allow_bad=True):
         out = []
@@ -252,14 +254,14 @@ def gen_x_case(rng):
             r = rng.random()
             if r < 0.12 and (zero_ok or rng.random() < 0.1):
                 continue  # missing squeezer (= zero squeezing)
-            val = valid_sq(nonzero=True)
+            val = valid_sq(nonzero=True) if (common_sq is None or rng.random() < 0.3) else common_sq
             if r < 0.22 and zero_ok:
                 val = 0.0
             if i == bad_one:
                 val = float(rng.choice([-0.4, 1.2, 0.05, 1.7, 0.5]))
             if rng.random() < 0.15 and val > 0.2 and isinstance(shape[-1], list):
                 # repeated squeezer: two gates that add up to the intended value
-                part = float(rng.uniform(0.05, val - 0.05))
+                part = float(rng.uniform(0.05, val - 0.05)) if common_sq is None else val / 2
                 out.append({"op": "S2gate", "p": [part, 0.0], "m": [i, i + N]})
                 out.append({"op": "S2gate", "p": [val - part, 0.0], "m": [i, i + N]})
             else:
@@ -426,6 +428,7 @@ def build_source(env, case, device):
         return prog
     prog = sf.Program(2 * N)
     bad = case.get("bad")
+    shared = {}
     with prog.context as q:
         for c in case["cmds"]:
             regs = tuple(q[i] for i in c["m"])
@@ -437,7 +440,12 @@ def build_source(env, case, device):
             elif c["op"] == "BipartiteGraphEmbed":
                 ops.BipartiteGraphEmbed(np.array(c["A"]), mean_photon_per_mode=c["mean"]) | regs
             else:
-                getattr(ops, c["op"])(*c["p"]) | (regs if len(regs) > 1 else regs[0])
+                key = (c["op"], tuple(c["p"]))
+                if case.get("share") and key in shared:
+                    op = shared[key]  # the same gate object applied in several places (legal front-end usage)
+                else:
+                    op = shared[key] = getattr(ops, c["op"])(*c["p"])
+                op | (regs if len(regs) > 1 else regs[0])
         if bad == "not-all-measured":
             ops.MeasureFock() | tuple(q[i] for i in range(2 * N - 1))
         elif bad == "homodyne":
@@ -555,6 +563,34 @@ def run_x_case(case, rep, env):
         return
     rep.observe("compiled:%s:%s" % (comp, case["kind"]))
     cgates = circuit_list(compiled, ev)
+
+    # ---- compiling must not rewrite the source program, and compiling it again must give the same circuit
+    rep.monitor("source-untouched")
+
+    def same(g1, g2):
+        if len(g1) != len(g2):
+            return False
+        for a, b in zip(g1, g2):
+            if a[0] != b[0] or a[2] != b[2] or len(a[1]) != len(b[1]):
+                return False
+            for x, y in zip(a[1], b[1]):
+                if np.shape(x) != np.shape(y) or np.max(np.abs(np.asarray(x) - np.asarray(y))) > 1e-12:
+                    return False
+        return True
+
+    if not same(src_gates, circuit_list(src, ev)):
+        V("compile:" + comp, "source-program-modified", "%s changed the parameters of the program it was given (source kind %s%s)"
+          % (comp, case["kind"], ", shared gate objects" if case.get("share") else ""))
+        return
+    try:
+        again = circuit_list(src.compile(device=device, compiler=comp), ev)
+        rep.monitor("recompile-same")
+        if not same(cgates, again):
+            V("compile:" + comp, "recompile-differs", "compiling the same program a second time with %s gives a different circuit" % comp)
+            return
+    except Exception as e:
+        V("compile:" + comp, "recompile-differs", "the second compilation of the same program raised %s: %s" % (type(e).__name__, str(e)[:120]))
+        return
     mixing = any(g[0] in ("BSgate", "MZgate", "Interferometer", "BipartiteGraphEmbed") for g in src_gates)
     rep.case(["x", N, case["shape"], comp, case["kind"], rnd(case.get("cmds", case.get("params")), 5)], nonzero_sq and mixing)
 
@@ -962,8 +998,8 @@ def run_case(case, rep, env):
 
 
 def plan(tier, seed, scale=1.0):
-    n = int((40 if tier == "quick" else 900) * scale)
-    return [{"n": n, "timeout": 3000} for _ in range(16)]
+    n = int((120 if tier == "quick" else 5000) * scale)
+    return [{"n": n, "timeout": 6000} for _ in range(16)]
 
 
 def run_shard(shard, rep):
